@@ -24,6 +24,8 @@ type Cell struct {
 	Msg     string   `json:"msg,omitempty"`
 	Signer  string   `json:"signer,omitempty"`
 	Holder  string   `json:"holder,omitempty"`
+	Amt     string   `json:"amt,omitempty"`
+	Scope   string   `json:"scope,omitempty"`
 	V       string   `json:"v,omitempty"`
 	Chain   string   `json:"chain,omitempty"`
 	Sender  string   `json:"sender,omitempty"`
@@ -193,12 +195,12 @@ func (r *runner) execState(s *sim.Env, root int, cells []Cell) {
 	for _, c := range own {
 		e := s.Branch()
 		sg, holder := f.signer(c.Signer), f.signer(c.Holder)
-		msg := builders[c.Msg](f, e, sg, holder, "oracle")
+		msg := builders[c.Msg](f, e, sg, holder, "oracle", Ax{c.Amt, c.Scope})
 		pre, vpre := e.Digest(), f.VictimView(e, holder)
 		res, dirty := deliverObserved(e, msg, pre)
 		post, vpost := e.Digest(), f.VictimView(e, holder)
-		rk := c.Msg + "/" + c.Holder
-		args := map[string]interface{}{"m": c.M, "msg": c.Msg, "holder": c.Holder, "signer": c.Signer, "ref": ref[rk]}
+		rk := c.Msg + "/" + c.Holder + "/" + c.Amt + "/" + c.Scope
+		args := map[string]interface{}{"m": c.M, "msg": c.Msg, "holder": c.Holder, "signer": c.Signer, "amt": c.Amt, "scope": c.Scope, "ref": ref[rk]}
 		id := r.lg.Add(root, r.run, "Own", args, rj(res), map[string]interface{}{"pre": pre, "post": post, "vpre": vpre, "vpost": vpost, "dirty": dirty})
 		if c.Signer == c.Holder {
 			ref[rk] = id
@@ -264,6 +266,7 @@ func (r *runner) execState(s *sim.Env, root int, cells []Cell) {
 		sort.SliceStable(cs, func(a, b int) bool { return len(cs[a].Off) < len(cs[b].Off) })
 		for _, c := range cs {
 			e := ge.Branch()
+			f.prepCtl(e, c.H)
 			for _, role := range c.Off {
 				if c.Pm == "missing" {
 					PriceMissing(e, f.roleAsset(c.H, c.Prod, role))
@@ -278,7 +281,10 @@ func (r *runner) execState(s *sim.Env, root int, cells []Cell) {
 			if strings.HasPrefix(c.H, "vault.Msg") && strings.Contains(c.H, "StableMint") {
 				who = f.LP
 			}
-			msg := builders[c.H](f, e, who, who, c.Prod)
+			if c.H == "liquidationsV2.MsgLiquidateExternalKeeper" || c.H == "auctionsV2.MsgPlaceMarketBid" {
+				who = f.Other
+			}
+			msg := builders[c.H](f, e, who, who, c.Prod, Ax{"small", "home"})
 			pre := e.Digest()
 			res, dirty := deliverObserved(e, msg, pre)
 			post := e.Digest()
